@@ -8,6 +8,21 @@ CHECKS = {
    text="Generated confluent process systems are executed on the real workers/environment under thousands of chosen interleavings (worker count 1-5, 8 scheduling strategies incl. PCT, partial channel visibility, quantum 1..1000); per-process results must equal the scenario model's single outcome, every run must reach quiescence with all processes terminated, and no step may panic or return Err. Held-on-observed-executions only.",
    design="§3 C03, §2.3, §2.4",
    note="Trusts SimNet's atomic-step/prefix-visibility equivalence argument (DESIGN §2.3) and the Kahn-style scenario model; HashMap iteration order inside the repo is not controlled."),
+ "C04": dict(
+   technique="runtime monitoring: offline checker over the SimNet boundary event log (conservation, exactly-once, per-sender FIFO) + quiescence (no lost wake-up) check",
+   text="Generated fan-in/fan-out/request-reply/await-chain scenarios with unique messages [sender,seq,payload] run on the real workers/environment under chosen interleavings; three monitors: environment boundary conservation (each DeliverAction forwarded once, in order, to the hosting worker; each SpawnAction -> one SpawnProcess + one NotifySpawn), end state (received + leftover mailbox == sent as multisets, per-sender order preserved), and no process parked at quiescence although its sources were sent. Evidence counts the situations seen (delivery to finished / spawning / selecting / mid-filter processes).",
+   design="§3 C04",
+   note="Trusts SimNet's interleaving model and the static-control-flow argument that makes completion schedule independent (DESIGN §2.4)."),
+ "C15": dict(
+   technique="runtime monitoring: scenario model of process fates + catch_unwind around every Worker::step/Environment::step on SimNet",
+   text="Process trees with a failing operation at a random place (builtin domain errors; forbidden send/spawn inside a receive filter) run under chosen interleavings; every process's fate must match the model (unaffected processes complete with their normal value, awaiters of the failed process fail with the same Error value, bystanders blocked on a never-sent message stay parked), and no step may panic or return an internal error.",
+   design="§3 C15",
+   note="Failure kinds limited to those the scenario DSL can place; effect errors and ownership violations are exercised by C14's workload."),
+ "C06": dict(
+   technique="runtime monitoring: heap invariant monitor (independent root walk vs executor accounting via hook) after every worker step + end-to-end byte read-back against a model",
+   text="Binary-flow programs and message scenarios run on SimNet with quantum down to 1; after every worker step an independent root walk is compared with the executor's refcounts/freed/free/pending_free (positivity <=> reachability, reachable => not freed, free list consistent, zero-count slots queued for reclamation, no dangling index); at the end all binaries are read back and compared with model bytes.",
+   design="§3 C06",
+   note="Exact refcount multiplicity is recorded as an early warning only (the property states positivity). REPL local compaction is exercised by C11's workload with the same monitor."),
 }
 
 NOT_BUILT = "check not built yet in this round (work in progress; see DESIGN.md §6 build order)"
